@@ -6,17 +6,24 @@
    to /repo after the fixes F4-F9, F16. *)
 From Verif Require Import lib.Base lib.Str lib.Utf8 gen.Gen.
 From Verif Require Import model.Stream model.Body model.MultipartRef model.Multipart model.Fields model.BodyPipeline.
-From Verif Require Import proofs.C12_pipeline proofs.C12_terminates proofs.C12_markup proofs.C12_delivered proofs.C12_wf.
+From Verif Require model.Chunked.
+From Verif Require Import proofs.C12_pipeline proofs.C12_terminates proofs.C12_markup proofs.C12_delivered proofs.C12_wf proofs.C12_refine proofs.C12_any
+  proofs.C07_pins proofs.C06_model_pins.
 
 (* The regular expression re-implemented by BodyPipeline.boundary_match is the
    one in /repo today; the error map sends the three request-error classes to 4xx. *)
 Theorem C12_pins :
   Gen.boundary_patt_src
   = [94;109;117;108;116;105;112;97;114;116;47;46;43;63;98;111;117;110;100;97;114;121;61;40;46;43;63;41;40;59;124;36;41]%N
+  (* FieldStorage._patt, re-implemented by Fields.scan_key / scan_value / opt_matches, which the
+     pipeline uses for every header line: an edited option regex (e.g. one that backtracks
+     exponentially: the "never hangs" clause) breaks this obligation *)
+  /\ Gen.field_opt_patt_src
+    = [40;46;43;63;41;40;61;40;34;91;94;34;93;42;34;124;46;43;63;41;41;63;40;59;124;36;41]%N
   /\ (forall cls c, emap_get Gen.errors_map cls = Some c -> (400 <= c < 500)%Z)
   /\ (exists c, emap_get Gen.errors_map n_RequestError = Some c).
 Proof.
-  split; [exact boundary_patt_pinned|]. split; [exact errors_map_codes|].
+  split; [exact boundary_patt_pinned|]. split; [exact field_opt_patt_pinned|]. split; [exact errors_map_codes|].
   destruct errors_map_request_error as (c & H & _). now exists c.
 Qed.
 Print Assumptions C12_pins.
@@ -27,16 +34,20 @@ Print Assumptions C12_pins.
    POST, json, body), the pipeline ends in Ok or in a Client response; no
    ServerFault constructor (assert failure, negative seek, unmapped error class,
    unencodable boundary, loop out of fuel) is ever produced.
-   Guard: CONTENT_TYPE holds only scalar values (PEP 3333: it is latin-1). *)
+   Guards: CONTENT_TYPE holds only scalar values (PEP 3333: it is latin-1), and
+   the CONTENT_LENGTH header, when present and non-empty, is something int()
+   accepts (finding C12-content-length-not-int below: otherwise 500). *)
 Theorem C12_no_server_fault :
   forall (jk : bytes -> option jkind) (cfg : config) (ctype : str) (fr : framing) (s : stream) (a : access),
     Forall scalar ctype ->
+    content_length fr <> None ->
     forall w, process jk cfg ctype fr s a <> ServerFault w.
 Proof.
-  intros jk cfg ctype fr s a Hc. apply process_no_fault.
+  intros jk cfg ctype fr s a Hc Hcl. apply process_no_fault.
   - exact Hc.
-  - apply read_parts_terminates.
-  - intros B parts _. apply markup_chunks_ok.
+  - exact Hcl.
+  - intros cl. apply read_parts_terminates.
+  - intros B parts. apply markup_chunks_ok.
 Qed.
 Print Assumptions C12_no_server_fault.
 
@@ -49,7 +60,7 @@ Print Assumptions C12_client_codes_4xx.
 (* Termination: the read loops (Content-Length and chunked) never run out of
    fuel — every iteration consumes at least one byte of the stream. *)
 Theorem C12_terminates :
-  forall (cfg : config) (fr : framing) (s : stream), read_parts cfg fr s <> ROutOfFuel.
+  forall (cfg : config) (cl : Z) (te : str) (s : stream), read_parts cfg cl te s <> ROutOfFuel.
 Proof. exact read_parts_terminates. Qed.
 Print Assumptions C12_terminates.
 
@@ -63,6 +74,31 @@ Theorem C12_markup_shape :
 Proof. intros B chunks. split; [apply markup_chunks_alternates | apply markup_chunks_starts_nonneg]. Qed.
 Print Assumptions C12_markup_shape.
 
+(* The pipeline's readers (which keep the list of parts for the streaming parser)
+   ARE the models of C04/C05: for ALL inputs they end like Chunked.body_read_env —
+   the glue of Request._body over Body.body_read_cl / Chunked.body_read_chunked —
+   and their parts concatenate to its body. *)
+Theorem C12_readers_are_C04_C05 :
+  forall (cfg : config) (cl : Z) (te : str) (s : stream),
+    refines (Chunked.body_read_env s (c_memfile cfg) (c_maxbody cfg) cl te) (read_parts cfg cl te s).
+Proof. exact read_parts_refines. Qed.
+Print Assumptions C12_readers_are_C04_C05.
+
+(* FINDING C12-content-length-not-int (not repaired: most WSGI servers validate
+   Content-Length before the application is called).  BodyMixin.content_length is
+   int(environ.get('CONTENT_LENGTH') or -1): a value int() rejects ("abc", "1e3",
+   "12abc") raises ValueError inside _body, which is not a RequestError, and the
+   request ends as 500 — for every body, content type and access that reads the body. *)
+Theorem C12_content_length_not_int_refuted :
+  exists (fr : framing),
+    content_length fr = None /\
+    forall jk cfg s, process jk cfg [] fr s ABody = ServerFault FContentLength.
+Proof.
+  exists (mkFraming (Some [97; 98; 99]%N) []). split; [vm_compute; reflexivity|].
+  intros jk cfg s. reflexivity.
+Qed.
+Print Assumptions C12_content_length_not_int_refuted.
+
 (* DELIVERED FIELDS ARE COMPLETE.  Whenever forms / files / POST succeed on a
    multipart body — ANY bytes, any framing, any chunking — every item of the three
    dictionaries is the complete content of a data section [ds, de) that the
@@ -72,8 +108,9 @@ Print Assumptions C12_markup_shape.
 Theorem C12_delivered_fields_complete :
   forall jk cfg ctype fr s a d,
     process jk cfg ctype fr s a = Ok (VMultipart d) ->
-    exists b B parts,
-      boundary_match ctype = Some b /\ utf8_encode b = Some B /\ read_parts cfg fr s = RDone parts /\
+    exists b B cl parts,
+      boundary_match ctype = Some b /\ utf8_encode b = Some B /\ contains_char N.eqb CR B = false /\
+      content_length fr = Some cl /\ read_parts cfg cl (fr_te fr) s = RDone parts /\
       forall it, In it (all_items d) ->
                  delivered_ok (concat parts) (fst (markup_chunks B parts)) it.
 Proof. exact delivered_fields_complete. Qed.
@@ -99,10 +136,21 @@ Theorem C12_truncated_never_delivered :
 Proof. exact delivered_closed_wf. Qed.
 Print Assumptions C12_truncated_never_delivered.
 
-(* NOT PROVED for bodies outside wf_prefix (garbage between parts, CR LF LF in a
-   header block ...): that the data sections of the STREAMING parser end at a
-   delimiter; there the claim rests on the correspondence check and the oracle
-   (tools/props/C12.py: delivered fields vs. delimiter positions). *)
+(* ... AND ON ARBITRARY INPUT (C06_data_sections_closed_any_input, mpB1): whatever
+   bytes are sent, under any framing and chunking, a delivered field is exactly
+   the bytes from the start [ds] of its data section up to the FIRST occurrence of
+   the delimiter CRLF--B at or after ds (which lies inside the body): a text value
+   is the UTF-8 decoding of body[ds : ds+q], an upload's window is (ds, ds+q), with
+   findb (token B) (skipn ds body) = Some q.  Never a truncated part. *)
+Theorem C12_delivered_fields_complete_any_input :
+  forall jk cfg ctype fr s a d,
+    process jk cfg ctype fr s a = Ok (VMultipart d) ->
+    exists b B cl parts,
+      boundary_match ctype = Some b /\ utf8_encode b = Some B /\
+      content_length fr = Some cl /\ read_parts cfg cl (fr_te fr) s = RDone parts /\
+      forall it, In it (all_items d) -> closed_any B (concat parts) it.
+Proof. exact delivered_fields_complete_any_input. Qed.
+Print Assumptions C12_delivered_fields_complete_any_input.
 
 (* non-vacuity: a body with a header line without colon is a client error, a
    well-formed one is delivered *)
@@ -110,8 +158,8 @@ Example C12_nonvacuous :
   let ct := [109;117;108;116;105;112;97;114;116;47;102;111;114;109;45;100;97;116;97;59;32;98;111;117;110;100;97;114;121;61;88]%N in
   let bad := [45;45;88;13;10;120;13;10;13;10;118;13;10;45;45;88;45;45;13;10]%N in
   let good := [45;45;88;13;10;67;111;110;116;101;110;116;45;68;105;115;112;111;115;105;116;105;111;110;58;32;102;111;114;109;45;100;97;116;97;59;32;110;97;109;101;61;34;97;34;13;10;13;10;118;13;10;45;45;88;45;45;13;10]%N in
-  process (fun _ => None) (mkCfg 7 None) ct (mkFraming 20 false) (stream_init bad [2;0;5]) AForms = Client 400
-  /\ match process (fun _ => None) (mkCfg 48 None) ct (mkFraming 63 false) (stream_init good [2;0;5]) AForms with
+  process (fun _ => None) (mkCfg 7 None) ct (mkFraming (Some [50;48]%N) []) (stream_init bad [2;0;5]) AForms = Client 400
+  /\ match process (fun _ => None) (mkCfg 48 None) ct (mkFraming (Some [32;54;51;32]%N) []) (stream_init good [2;0;5]) AForms with
      | Ok (VMultipart d) => d_forms d = [([97]%N, Single (IText (Some [118]%N)))]
      | _ => False
      end.
